@@ -413,6 +413,22 @@ both('t_macx_core', MC,
       'r(x, d) <-- k(x), let d = 0 - (x - 3)',
       'a(x) <-- k(x), edge((x + 1), t1), if *t1 > (x + 1) * 2',
       'a(x) <-- k(x), edge(x, t1), if *t1 > x * 2'], tags=['twin'])
+# scoping constructs inside the expressions of a macro body: a `let` of a block rebinds a macro-local name and reads the outer one in
+# its initialiser; closure parameters / match arms with the name of a macro-local variable
+MACB = ['macro scaled($id: expr, $out: ident) { p($id, w), let $out = { let w = w * 10; w + 1 } }',
+        'macro twice($id: expr, $out: ident) { p($id, w), let $out = { let u = w + 1; let w = u * w; let u = w + u; u } }',
+        'macro viaf($id: expr, $out: ident) { p($id, w), let $out = (|w: i32| w + 1)(w * 2) }',
+        'macro arm($id: expr, $out: ident) { p($id, w), let $out = match Some(w + 1) { Some(w) => w * 3, None => *w } }']
+both('t_macb_sugar', MC, [], body=['pub struct P;'] + [d + ';' for d in MC] + MACB + [
+     'r(x, v) <-- k(w), p(x, y), if y <= w, scaled!(x, v);',
+     'r(x, v) <-- k(w), k(u), if u < w, twice!(x, v);',
+     'r(x, v) <-- k(w), p(x, y), if y <= w, viaf!(x, v);',
+     'r(x, v) <-- k(w), p(x, y), if y <= w, arm!(x, v);'], tags=['twin'], twin=('t_macb_core', 'L'))
+both('t_macb_core', MC,
+     ['r(x, v) <-- k(w), p(x, y), if y <= w, p(x, w1), let v = { let w = w1 * 10; w + 1 }',
+      'r(x, v) <-- k(w), k(u), if u < w, p(x, w1), let v = { let u = w1 + 1; let w = u * w1; let u = w + u; u }',
+      'r(x, v) <-- k(w), p(x, y), if y <= w, p(x, w1), let v = (|w: i32| w + 1)(w1 * 2)',
+      'r(x, v) <-- k(w), p(x, y), if y <= w, p(x, w1), let v = match Some(w1 + 1) { Some(w) => w * 3, None => *w1 }'], tags=['twin'])
 # a disjunction inside a macro body whose locals are private to one disjunct each
 MACD = ['macro alt($a: expr, $b: expr) { (edge($a, t1), p(t1, $b) | p($a, t2), edge(t2, $b)) }',
         'macro alt2($a: expr, $b: expr) { k($a), (alt!($a, m) | edge($a, m)), edge(m, $b) }']
